@@ -200,4 +200,26 @@ theorem dstKey_inj {a b : Nat} (h : Resumption.dstKey a = Resumption.dstKey b) :
   have := congrArg List.length this
   simpa using this
 
+/-! ### `withPeer` only fills in the server's view of its peer -/
+
+section withPeer
+open Gotlcp.Model.Resumption
+variable (p : Params) (a : Nat) (k : Bool) (x : Option Nat) (o : Obs)
+@[simp] theorem withPeer_cOk : (withPeer p a k x o).cOk = o.cOk := rfl
+@[simp] theorem withPeer_sOk : (withPeer p a k x o).sOk = o.sOk := rfl
+@[simp] theorem withPeer_cRes : (withPeer p a k x o).cRes = o.cRes := rfl
+@[simp] theorem withPeer_sRes : (withPeer p a k x o).sRes = o.sRes := rfl
+@[simp] theorem withPeer_offered : (withPeer p a k x o).offered = o.offered := rfl
+@[simp] theorem withPeer_returned : (withPeer p a k x o).returned = o.returned := rfl
+@[simp] theorem withPeer_suite : (withPeer p a k x o).suite = o.suite := rfl
+@[simp] theorem withPeer_peer : (withPeer p a k x o).peer = o.peer := rfl
+@[simp] theorem withPeer_ms : (withPeer p a k x o).ms = o.ms := rfl
+@[simp] theorem withPeer_rnd : (withPeer p a k x o).rnd = o.rnd := rfl
+@[simp] theorem withPeer_full : (withPeer p a k x o).full = o.full := rfl
+@[simp] theorem withPeer_speer : (withPeer p a k x o).speer = x := rfl
+@[simp] theorem withPeer_vc : (withPeer p a k x o).vc = some x := rfl
+theorem withPeer_vpc : (withPeer p a k x o).vpc = if k then some x else none := rfl
+theorem withPeer_sver : (withPeer p a k x o).sver = (verifiesCert p a && x.isSome) := rfl
+end withPeer
+
 end Gotlcp.Lemmas.Resumption
